@@ -41,6 +41,8 @@ type peerEnd struct {
 	eof     chan struct{} // closed when Receive returned an error
 	gotID   chan struct{} // closed when the router's identity message arrived (dialled connections)
 	eofSeen int32
+	stall   int32         // the peer stops reading (set by the harness)
+	resume  chan struct{} // closed to let it read again
 }
 
 type connRec struct {
@@ -265,6 +267,9 @@ func (e *renv) process(env *network.Envelope) error {
 func (pe *peerEnd) readLoop() {
 	first := true
 	for {
+		if atomic.LoadInt32(&pe.stall) == 1 {
+			<-pe.resume
+		}
 		env, err := pe.conn.Receive()
 		if err != nil {
 			atomic.StoreInt32(&pe.eofSeen, 1)
@@ -279,7 +284,7 @@ func (pe *peerEnd) readLoop() {
 }
 
 func newPeerEnd(c network.Conn, dialled bool) *peerEnd {
-	pe := &peerEnd{conn: c, eof: make(chan struct{}), gotID: make(chan struct{})}
+	pe := &peerEnd{conn: c, eof: make(chan struct{}), gotID: make(chan struct{}), resume: make(chan struct{})}
 	go pe.readLoop()
 	return pe
 }
